@@ -52,6 +52,15 @@ def check(ctx):
     ctx.ob("R10.2", f"{k}|resyncs-live-list", (lo, hi) == (1, 1), site, f"live list re-synced {lo}..{hi} times per path; required exactly once, after the id was taken")
     flag = [a for a in guards.accesses(body, SM, {"keep_streams_running"}) if a["kind"] == "w"]
     ctx.ob("R10.2", f"{k}|arms-run-flag", len(flag) >= 1, site, "keep_streams_running[id] is set for the new stream")
+    # ... to `true`, for the id just taken (a stream created with its flag down answers end-of-stream at its first empty poll)
+    try:
+        dg_ = D.Dag(body)
+        sts = [(b_, c_, i_, rv_) for (b_, c_, i_, rv_) in util.element_stores(body, dg_) if "keep_streams_running" in show(c_) or "keep_streams_running" in str(c_)]
+        vals = [strip_casts(dg_.expr(rv_[1])) if rv_[0] == "Use" else ("?",) for (_, _, _, rv_) in sts]
+        idx_ok = all("consume_movable" in show(i_) or "publish" not in show(i_) for (_, _, i_, _) in sts)
+        ctx.ob("R10.2", f"{k}|run-flag-set-to-true", bool(sts) and all(v == ("const", 1) for v in vals) and idx_ok, site, f"stores {[show(v) for v in vals]} into keep_streams_running[new id]; required: true")
+    except Exception as e_:
+        ctx.undecided("R10.2", f"{k}|run-flag-set-to-true", site, f"store shape not understood: {e_}")
     # ------------------------------------------------------------------ R10.2 report_stream_dropped
     k = SM + "::report_stream_dropped"
     body = Body(fx.fn(k)); dg = D.Dag(body)
